@@ -544,6 +544,11 @@ def setSysPhases (s : Sys π ν) (ph : List (String × ν)) : Res π ν :=
   if "N/A" ∈ dkeys ph then fail s "ValueError" else
   ({ s with phases := ph }, .ok)
 
+/-- the configuration is a list (`isinstance(phase_conf, list)`) -/
+def _root_.SysLoss.PhaseConf.isNames {ν : Type} : PhaseConf ν → Bool
+  | .names _ => true
+  | .table _ => false
+
 def setCompPhases (s : Sys π ν) (x : String) (pc : PConfArg ν) : Res π ν :=
   match dget s.nodes x with
   | none => fail s "ValueError"
@@ -555,6 +560,8 @@ def setCompPhases (s : Sys π ν) (x : String) (pc : PConfArg ν) : Res π ν :=
       | none => fail s "IndexError"
       | some c =>
         if kindOfC c = .rloss ∨ kindOfC c = .vloss then fail s "ValueError" else
+        -- a load takes a dict of per-phase values; a list is rejected (upstream fix of finding F37)
+        if (kindOfC c).ctype = .LOAD ∧ conf.isNames = true then fail s "ValueError" else
         ({ s with phaseConf := dset s.phaseConf x conf }, .ok)
 
 /-! ### constructor and the step function -/
